@@ -65,15 +65,18 @@ SK_GET_TS = """
 def get_timestamp(self, index):
     if self.oldest_timestamp is None:
         return None
-    ref_ts = self.oldest_timestamp if index >= 0 else self.newest_timestamp + self._sampling_period
+    if index < 0:
+        ref_ts = self.newest_timestamp + self._sampling_period
+    else:
+        ref_ts = self.oldest_timestamp
     return ref_ts + index * self._sampling_period
 """
 
 SK_FILL = """
 def _fill_gaps(self, data, fill_value, oldest_timestamp, gaps):
     for gap in gaps:
-        start_index = HOLE_si
         end_index = HOLE_ei
+        start_index = HOLE_si
         start_index = max(start_index, 0)
         end_index = min(end_index, len(data))
         if start_index < end_index:
@@ -86,14 +89,14 @@ def _fill_gaps(self, data, fill_value, oldest_timestamp, gaps):
 
 SK_WRAPPED = """
 def _wrapped_buffer_window(buffer, start_pos, end_pos, force_copy=True):
-    if start_pos >= end_pos:
+    if start_pos < end_pos:
+        arr = buffer[start_pos:end_pos]
+    else:
         if isinstance(buffer, list):
             return buffer[start_pos:] + buffer[0:end_pos]
         if end_pos > 0:
             return np.concatenate((buffer[start_pos:], buffer[0:end_pos]))
         arr = buffer[start_pos:]
-    else:
-        arr = buffer[start_pos:end_pos]
     if force_copy:
         return deepcopy(arr)
     return arr
@@ -117,9 +120,9 @@ def newest_timestamp(self):
 
 SK_COVERED_RANGE = """
 def _covered_time_range(self):
-    if not self.oldest_timestamp:
-        return timedelta(0)
-    return self.newest_timestamp - self.oldest_timestamp + self._sampling_period
+    if self.oldest_timestamp:
+        return self.newest_timestamp - self.oldest_timestamp + self._sampling_period
+    return timedelta(0)
 """
 
 SK_COUNT_COVERED = """
@@ -132,8 +135,8 @@ def count_valid(self):
     if self._timestamp_newest == self._TIMESTAMP_MIN:
         return 0
     sum_missing_entries = max(0, sum((HOLE_len for gap in self._gaps)))
-    start_pos = self.to_internal_index(self._timestamp_oldest)
     end_pos = self.to_internal_index(self._timestamp_newest)
+    start_pos = self.to_internal_index(self._timestamp_oldest)
     if end_pos < start_pos:
         return HOLE_wrapped
     return HOLE_straight
@@ -225,7 +228,9 @@ def generate(repo: pathlib.Path) -> str:  # noqa: C901  (one linear recipe)
     fn = find_method(buf, "OrderedRingBuffer", "_fill_gaps", like=[SK_FILL])
     try:
         loop = next(s for s in strip_doc(fn) if isinstance(s, ast.For))
-        si, ei = loop.body[0].value, loop.body[1].value
+        first = lambda name: next(x.value for x in loop.body  # noqa: E731
+                                  if isinstance(x, ast.Assign) and ast.unparse(x.targets[0]) == name)
+        si, ei = first("start_index"), first("end_index")
     except (AttributeError, IndexError, StopIteration) as e:
         raise Bad(f"_fill_gaps: unexpected shape ({e})") from e
     expect(fn, {id(si): "si", id(ei): "ei"}, [SK_FILL], "_fill_gaps")
@@ -257,7 +262,8 @@ def generate(repo: pathlib.Path) -> str:  # noqa: C901  (one linear recipe)
     fn = find_method(buf, "OrderedRingBuffer", "count_valid", like=[SK_COUNT_VALID])
     body = strip_doc(fn)
     try:
-        gen = next(s for s in body if isinstance(s, ast.Assign)).value.args[1].args[0]  # max(0, sum(<gen>))
+        gen = next(s for s in body if isinstance(s, ast.Assign)
+                   and ast.unparse(s.targets[0]) == "sum_missing_entries").value.args[1].args[0]  # max(0, sum(<gen>))
         length = gen.elt
         ret_wrapped = _if_tests(body)[1].body[0].value
         ret_straight = body[-1].value  # type: ignore[attr-defined]
